@@ -146,7 +146,7 @@ impl Family for C01Family {
                 down = vec![];
             }
             let early_k = r.below(up.iter().sum::<usize>() + 1);
-            tcp.push(TcpConn { entry: r.below(9) as u8, start_ms: r.below(300) as u64, up, down, up_gap_ms: *r.pick(&[0u64, 0, 1, 30]), down_gap_ms: *r.pick(&[0u64, 0, 1, 30]), client_end, target_mode, early_k, target_read_delay_ms: if big { 2000 } else { *r.pick(&[0u64, 0, 0, 500]) } });
+            tcp.push(TcpConn { entry: r.below(10) as u8, start_ms: r.below(300) as u64, up, down, up_gap_ms: *r.pick(&[0u64, 0, 1, 30]), down_gap_ms: *r.pick(&[0u64, 0, 1, 30]), client_end, target_mode, early_k, target_read_delay_ms: if big { 2000 } else { *r.pick(&[0u64, 0, 0, 500]) } });
         }
         if small_buffers {
             net.buf_cap = 1024;
